@@ -146,3 +146,19 @@ fn f8_memory_limited_build_with_large_capacity_terminates() {
         .cancel(move || start.elapsed() > Duration::from_secs(15)).build(&mut wtxn);
     assert!(r.is_ok(), "build did not terminate within 15 s: {r:?}");
 }
+
+/// F9 (C12, fixed by 3496d34): the binary-quantised cosine distance of a vector to itself must be 0 (it was about -6e-8 for d = 65)
+#[test]
+fn f9_bq_cosine_self_distance_is_zero_for_every_dimension() {
+    use crate::distance::{BinaryQuantizedCosine, Distance};
+    use crate::internals::{Leaf, UnalignedVector};
+    use std::borrow::Cow;
+    for d in 1..=300usize {
+        let v: Vec<f32> = (0..d).map(|i| if i % 3 == 0 { 1.0 } else { -1.0 }).collect();
+        let uv = UnalignedVector::from_slice(&v);
+        let p: Leaf<BinaryQuantizedCosine> = Leaf { header: BinaryQuantizedCosine::new_header(&uv), vector: Cow::Owned(uv.clone().into_owned()) };
+        let q: Leaf<BinaryQuantizedCosine> = Leaf { header: BinaryQuantizedCosine::new_header(&uv), vector: Cow::Owned(uv.clone().into_owned()) };
+        let dist = BinaryQuantizedCosine::normalized_distance(BinaryQuantizedCosine::built_distance(&p, &q), d);
+        assert!(dist == 0.0, "dimension {d}: distance of a vector to itself is {dist:e}");
+    }
+}
